@@ -1,7 +1,7 @@
 (* C12 — the version schema is derived correctly for every model configuration.
    `build` mirrors table_builder.py and the tracker plugin's column hook; column lists are
    unbounded, attributes range over the alphabet of the pcol record. *)
-From Continuum Require Import Model.Base Model.Schema Proofs.SchemaP.
+From Continuum Require Import Model.Base Model.Schema Proofs.SchemaP Gen.SchemaGen Proofs.SchemaGenP.
 
 Theorem C12_kept_column_reflected : forall m c,
   In c (m_cols m) -> pc_excl c = false ->
@@ -56,6 +56,16 @@ Example C12_example :
   map vc_unique (build m) = [false; false; false; false; false; false].
 Proof. repeat split; vm_compute; reflexivity. Qed.
 
+(* `build` IS the code: Gen/SchemaGen.v is regenerated on every build from the current
+   table_builder.py (ColumnReflector.reflect_column, the internal columns, __iter__) and
+   plugins/property_mod_tracker.py (create_mod_column, after_build_version_table_columns) by a
+   fail-closed translator (harness/pytrans_schema.py); the generated functions equal the model. *)
+Theorem C12_build_is_the_code : forall m, gen_build m = build m.
+Proof. exact gen_build_is_model. Qed.
+
+Theorem C12_reflect_column_is_the_code : forall m c, gen_reflect_column m c = reflect_column m c.
+Proof. exact gen_reflect_column_is_model. Qed.
+
 Print Assumptions C12_kept_column_reflected.
 Print Assumptions C12_excluded_column_absent.
 Print Assumptions C12_primary_key.
@@ -66,3 +76,5 @@ Print Assumptions C12_operation_type_column.
 Print Assumptions C12_flag_columns.
 Print Assumptions C12_no_flag_columns_without_tracker.
 Print Assumptions C12_example.
+Print Assumptions C12_build_is_the_code.
+Print Assumptions C12_reflect_column_is_the_code.
